@@ -30,11 +30,13 @@ void run_cpp(const Scenario& s, Observed& ob) {
     vf::Fixture fx;
     fx.run(
         [&]() {
+            auto M = [&](int fn) -> MockSupport& { return (s.scoped && fn) ? mock("s") : mock(); };
+            auto name = [&](int fn) { return s.scoped ? "f" : FN[fn]; };
             if (s.strict) mock().strictOrder();
             for (size_t i = 0; i < s.exps.size(); i++) {
                 const Exp& e = s.exps[i];
-                if (e.count == 0 && e.np == 0 && !e.obj && !e.ignoreOther && !s.readReturn && !s.outParam) { mock().expectNoCall(FN[e.fn]); continue; }
-                MockExpectedCall& x = mock().expectNCalls((unsigned)e.count, FN[e.fn]);
+                if (e.count == 0 && e.np == 0 && !e.obj && !e.ignoreOther && !s.readReturn && !s.outParam) { M(e.fn).expectNoCall(name(e.fn)); continue; }
+                MockExpectedCall& x = M(e.fn).expectNCalls((unsigned)e.count, name(e.fn));
                 if (e.obj) x.onObject(&g_obj[e.obj]);
                 for (int k = 0; k < e.np; k++) x.withParameter(PN[e.pname[k]], e.pval[k]);
                 if (s.outParam) x.withOutputParameterReturning("o", &outsrc[i], 1);
@@ -44,7 +46,7 @@ void run_cpp(const Scenario& s, Observed& ob) {
             if (s.ignoreOtherCalls) mock().ignoreOtherCalls();
             for (size_t c = 0; c < s.acts.size(); c++) {
                 const Act& a = s.acts[c];
-                MockActualCall& call = mock().actualCall(FN[a.fn]);
+                MockActualCall& call = M(a.fn).actualCall(name(a.fn));
                 if (a.obj) call.onObject(&g_obj[a.obj]);
                 for (int k = 0; k < a.np; k++) call.withParameter(PN[a.pname[k]], a.pval[k]);
                 if (s.outParam) call.withOutputParameter("o", &ob.outb[c]);
@@ -81,19 +83,16 @@ void check(const Scenario& s) {
                  d() + ": reference says " + diag_name(ex.diag) + vf::fmt(" at call %d", ex.failing_call) + "; framework: " + (ob.failures ? ob.text.substr(0, 300) : std::string("test passed")));
         return;
     }
-    // the failure is raised where the first deviation is, no later statement runs
-    if (ex.diag != PASS && ex.failing_call < (int)s.acts.size()) {
-        bool deferred = ex.diag == PARAM_MISSING || ex.diag == OBJ_MISSING;      // known only at the next mock operation
-        int max_reached = deferred ? (s.readReturn ? ex.failing_call : ex.failing_call + 1) : ex.failing_call;
-        if (ob.reached > max_reached) vf::fail(vf::fmt("abort/statements-after-%s-executed", diag_name(ex.diag)), d() + vf::fmt(": %d call statements completed, failure belongs to call %d", ob.reached, ex.failing_call));
-    }
+    // the failure is raised where the reference says it becomes known; no later call statement completes
+    if (ex.diag != PASS && ob.reached > ex.raised_at)
+        vf::fail(vf::fmt("abort/statements-after-%s-executed", diag_name(ex.diag)), d() + vf::fmt(": %d call statements completed, the failure (call %d) is raised during statement %d", ob.reached, ex.failing_call, ex.raised_at));
     if (ex.diag == ADDITIONAL && ob.text.find(std::string("Unexpected additional (") + ordinal(ex.additional_nth) + ")") == std::string::npos)
         vf::fail("diagnosis/additional-call-ordinal", d() + vf::fmt(": expected ordinal %s in: ", ordinal(ex.additional_nth)) + ob.text.substr(0, 200));
     // values handed out belong to the consumed expectation class, each expectation's value at most `count` times
     int handed[8] = {0};
     for (size_t c = 0; c < s.acts.size() && (int)c < ob.reached; c++) {
         int m = ex.consumed[c];
-        if (m == -2) continue;
+        if (m == -2 || m == -3) continue;
         if (s.readReturn) {
             if (m == -1) { if (ob.ret[c] != -1) vf::fail("return/ignored-call-value", d() + vf::fmt(": ignored call %zu returned %d, expected the default", c, ob.ret[c])); }
             else {
@@ -109,7 +108,7 @@ void check(const Scenario& s) {
     }
 }
 
-struct Sweep { const char* name; bool ig, obj; int maxE, maxA; int flagbits; /* how many of strict,ioc,ret,out vary */ int nfn; };
+struct Sweep { const char* name; bool ig, obj; int maxE, maxA; int flagbits; /* how many of strict,ioc,ret,out vary */ int nfn; bool scoped = false; };
 
 void run_sweep(const Sweep& sw) {
     Alphabet A = make_alphabet(sw.ig, sw.obj, sw.nfn);
@@ -126,12 +125,13 @@ void run_sweep(const Sweep& sw) {
         decode_tuple(ie, (long)A.eo.size(), te); decode_tuple(ia, (long)A.ao.size(), ta);
         Scenario s;
         s.strict = flags & 1; s.ignoreOtherCalls = flags & 2; s.readReturn = flags & 4; s.outParam = flags & 8;
+        if (sw.scoped) { s.scoped = true; s.readReturn = flags & 1; s.outParam = flags & 2; s.strict = false; s.ignoreOtherCalls = false; }
         for (int i : te) s.exps.push_back(A.eo[i]);
         for (int i : ta) s.acts.push_back(A.ao[i]);
         if (!canonical(s)) { vf::count("skipped_symmetric"); return; }
         check(s);
     });
-    vf::require_outcomes(sw.name, 12);
+    vf::require_outcomes(sw.name, sw.scoped ? 6 : 12);
 }
 
 } // namespace
@@ -145,11 +145,11 @@ int main(int argc, char** argv) {
     bool sanitized = std::string(VF_FLAVOUR) != "plain";      // the sanitizer build is ~5x slower: smaller sweeps, memory safety is the point there
     if (sanitized) {
         if (!T) sweeps = { {"basic22", false, false, 2, 2, 2, 2}, {"ignore12", true, false, 1, 2, 4, 2}, {"object12", false, true, 1, 2, 4, 1} };
-        else    sweeps = { {"basic22", false, false, 2, 2, 4, 2}, {"ignore22", true, false, 2, 2, 2, 2}, {"object22", false, true, 2, 2, 2, 1} };
+        else    sweeps = { {"basic22", false, false, 2, 2, 4, 2}, {"ignore22", true, false, 2, 2, 2, 2}, {"object22", false, true, 2, 2, 2, 1}, {"scope22", false, false, 2, 2, 2, 2, true} };
     } else if (!T) {
-        sweeps = { {"basic22", false, false, 2, 2, 4, 2}, {"basic13", false, false, 1, 3, 3, 2}, {"ignore22", true, false, 2, 2, 2, 2}, {"object22", false, true, 2, 2, 2, 1} };
+        sweeps = { {"basic22", false, false, 2, 2, 4, 2}, {"basic13", false, false, 1, 3, 3, 2}, {"ignore22", true, false, 2, 2, 2, 2}, {"object22", false, true, 2, 2, 2, 1}, {"scope22", false, false, 2, 2, 2, 2, true}, {"scope13", false, false, 1, 3, 2, 2, true} };
     } else {
-        sweeps = { {"basic23", false, false, 2, 3, 4, 2}, {"ignore23", true, false, 2, 3, 2, 2}, {"object22", false, true, 2, 2, 4, 1}, {"object23", false, true, 2, 3, 2, 1}, {"basic32", false, false, 3, 2, 2, 2} };
+        sweeps = { {"basic23", false, false, 2, 3, 4, 2}, {"ignore23", true, false, 2, 3, 2, 2}, {"object22", false, true, 2, 2, 4, 1}, {"object23", false, true, 2, 3, 2, 1}, {"basic32", false, false, 3, 2, 2, 2}, {"scope23", false, false, 2, 3, 2, 2, true} };
     }
     for (auto& sw : sweeps) run_sweep(sw);
     return vf::finish();
